@@ -21,7 +21,7 @@ RULE = (
     "Oracle: Geometry.from_xyz(geo.xyz_str(comment)) and from_xyz_file of "
     "the same text reproduce the element tuple and every coordinate within "
     "5.1e-9. (connectivity) element lists over all 118 with consecutive "
-    "atoms placed at (1 +- eps) * 1.2 * (r_i + r_j), eps in [1e-3, 0.3], "
+    "atoms placed at (1 +- eps) * 1.2 * (r_i + r_j), eps log-uniform in [3e-6, 0.3], translations up to 1e6 A, "
     "other pairs wherever they fall; oracle from a pinned copy of the "
     "radii: BondsFromDistance().array is symmetric, zero on the diagonal "
     "and 1 exactly on pairs closer than the cutoff (pairs within 1e-9 "
@@ -92,15 +92,16 @@ def gen_conn(data: bytes):
     coords = [(0.0, 0.0, 0.0)]
     for i in range(1, n):
         prev = tp.below(i)
-        eps = 10 ** (-(tp.below(2501) / 1000.0) - 0.5)     # 1e-3 .. 0.316
-        eps = min(eps, 0.3)
+        # log-uniform 3e-6 .. 0.3 (the check itself requires >= 1e-6)
+        eps = 10 ** (-(tp.below(5001) / 1000.0) - 0.52)
+        eps = max(3e-6, min(eps, 0.3))
         f = (1 - eps) if tp.chance(128) else (1 + eps)
         d = f * G.cutoff(elems[prev], elems[i])
         coords.append(G.add(coords[prev], G.scale(G.draw_unit(tp), d)))
     return {"part": "connectivity", "elements": elems,
             "coords": [list(c) for c in coords],
             "quat": list(G.draw_quat(tp)),
-            "shift": list(G.draw_vec(tp, 50.0)),
+            "shift": list(G.draw_vec(tp, tp.pick([50.0, 1e3, 1e5, 9.9e5]))),
             "perm": tp.shuffle(range(n))}
 
 
